@@ -315,7 +315,14 @@ func (x *exec) histC04() {
 			}
 			x.compareOutcome(i, "Evaluate", text, got, want, e.Crashed)
 		case "next":
-			l := live()
+			// any iterator the caller still holds, drained ones included: a drained
+			// iterator polled again must stay drained and must not disturb the others
+			var l []*handle
+			for _, h := range hs {
+				if !h.dead && (!h.done || st.H%3 == 0) {
+					l = append(l, h)
+				}
+			}
 			if len(l) == 0 {
 				continue
 			}
@@ -323,6 +330,10 @@ func (x *exec) histC04() {
 			n := st.N
 			if n <= 0 {
 				n = 1
+			}
+			if h.done {
+				x.pollDrained(i, h)
+				continue
 			}
 			x.advance(i, h, n, st.Crash)
 		case "abandon":
@@ -373,6 +384,22 @@ func (x *exec) histC04() {
 	}
 }
 
+// pollDrained: one more MoveNext on an iterator that already returned false.
+// What the drained iterator itself answers is not C04's business (C12 checks
+// that for node-set expressions); here the extra poll is one more event of the
+// history, and every other evaluation must stay unaffected by it.
+func (x *exec) pollDrained(step int, h *handle) {
+	e := x.begin(budgetFor(h.want), 0)
+	ok, id, tail := moveNext(h.it)
+	x.end(e)
+	x.res.Stats.Ops++
+	x.res.Stats.Faults["extra-movenext"]++
+	x.tracef("step %d extra MoveNext on drained handle(e%d,%s) -> %v %d %s", step, h.e, h.api, ok, id, tail)
+	if ok || tail != "" {
+		h.dead = true
+	}
+}
+
 // advance performs n MoveNext calls on h, checking each against the reference.
 func (x *exec) advance(step int, h *handle, n, crash int) {
 	text := x.s.Exprs[h.e].Text
@@ -384,8 +411,12 @@ func (x *exec) advance(step int, h *handle, n, crash int) {
 		x.res.Stats.Ops++
 		x.tracef("step %d next handle(e%d,%s) -> %v %d %s", step, h.e, h.api, ok, id, tail)
 		if h.want.Aborted() || h.want.Kind != "nodes" {
-			if !ok {
+			// no reference sequence (the solo run itself exceeded its budget): the
+			// handle is only kept moving; a panic or abort ends it
+			if !ok && tail == "" {
 				h.done = true
+			} else if !ok {
+				h.dead = true
 			}
 			if h.want.Kind != "nodes" && !h.want.Aborted() && h.api == "select" {
 				// Select on a non node-set expression: still must be repeatable
